@@ -23,19 +23,19 @@ import (
 
 // Case is one evaluated input; it is what a replay file stores.
 type Case struct {
-	Kind      string   `json:"kind"`                // drbg | pure | vals | valtx | members | signing | seed
-	Fn        string   `json:"fn,omitempty"`        // pure: one | some | max
-	Weights   []uint64 `json:"weights,omitempty"`   // pure: weight vector
-	Tokens    []string `json:"tokens,omitempty"`    // vals/valtx: validator tokens (decimal), slot order
-	Flags     string   `json:"flags,omitempty"`     // vals: E/I/U/X per validator; members: A/I/N/Z; signing: a/A/I/N
-	Cnt       int      `json:"cnt,omitempty"`       // ask count / threshold / cnt
-	Tries     int      `json:"tries,omitempty"`     // sampling_try_count
-	Seed      string   `json:"seed,omitempty"`      // rolling seed (hex)
-	Nonce     string   `json:"nonce,omitempty"`     // drbg: nonce (hex)
-	ID        uint64   `json:"id,omitempty"`        // request id / signing id
-	Attempt   uint64   `json:"attempt,omitempty"`   // members: attempt number in the nonce
-	ChainID   string   `json:"chain_id,omitempty"`  // personalization string
-	HashHex   string   `json:"hash,omitempty"`      // seed: block hash
+	Kind      string   `json:"kind"`                 // drbg | pure | vals | valtx | members | signing | seed
+	Fn        string   `json:"fn,omitempty"`         // pure: one | some | max
+	Weights   []uint64 `json:"weights,omitempty"`    // pure: weight vector
+	Tokens    []string `json:"tokens,omitempty"`     // vals/valtx: validator tokens (decimal), slot order
+	Flags     string   `json:"flags,omitempty"`      // vals: E/I/U/X per validator; members: A/I/N/Z; signing: a/A/I/N
+	Cnt       int      `json:"cnt,omitempty"`        // ask count / threshold / cnt
+	Tries     int      `json:"tries,omitempty"`      // sampling_try_count
+	Seed      string   `json:"seed,omitempty"`       // rolling seed (hex)
+	Nonce     string   `json:"nonce,omitempty"`      // drbg: nonce (hex)
+	ID        uint64   `json:"id,omitempty"`         // request id / signing id
+	Attempt   uint64   `json:"attempt,omitempty"`    // members: attempt number in the nonce
+	ChainID   string   `json:"chain_id,omitempty"`   // personalization string
+	HashHex   string   `json:"hash,omitempty"`       // seed: block hash
 	PrevCount uint64   `json:"prev_count,omitempty"` // valtx / signing: request / signing count before the call
 }
 
